@@ -154,9 +154,9 @@ theorem sdivFinish_spec (qlo qhi : Int) (sign : Bool) (hlo : isU64 qlo) (hhi : i
     simp only [h3, if_true, if_false, ne_eq, not_true_eq_false, not_false_eq_true, Bool.false_eq_true] <;>
     unfold wrapS64 <;> (try unfold wrapU64) <;> omega
 
-/-- the assertion inside `rounded_sdiv_128_by_49` fails exactly for `|div| ≥ 2^48` -/
+/-- the assertion inside `rounded_sdiv_128_by_49` fails exactly for `|div| > 2^48` -/
 theorem sdiv_abort_iff (hi lo d : Int) (hd : isI64 d) :
-    roundedSdiv128By49 hi lo d = none ↔ iabs d ≥ 281474976710656 := by
+    roundedSdiv128By49 hi lo d = none ↔ iabs d > 281474976710656 := by
   simp only [roundedSdiv128By49, roundedUdiv128By48, udivAssert]
   have : (sdivPrepare hi lo d).2.2.1 = iabs d := by
     unfold isI64 at hd
@@ -164,7 +164,7 @@ theorem sdiv_abort_iff (hi lo d : Int) (hd : isI64 d) :
     by_cases h1 : hi < 0 <;> by_cases h2 : d < 0 <;>
       simp only [h1, h2, if_true, if_false] <;> (try unfold wrapS64) <;> unfold wrapU64 <;> omega
   rw [this]
-  by_cases h : iabs d < 281474976710656
+  by_cases h : iabs d ≤ 281474976710656
   · simp only [h, decide_true, if_true]; constructor
     · intro h'; cases h'
     · intro h'; omega
@@ -176,7 +176,7 @@ theorem sdiv_abort_iff (hi lo d : Int) (hd : isI64 d) :
     nearest with ties up (i.e. ties away from zero), with the sign of the exact quotient, as a
     128-bit two's complement number `rhi:rlo`. -/
 theorem sdiv_spec (hi lo d : Int) (hhi : isI64 hi) (hlo : isU64 lo)
-    (hd : -281474976710656 < d ∧ d < 281474976710656) (hd0 : d ≠ 0)
+    (hd : -281474976710656 ≤ d ∧ d ≤ 281474976710656) (hd0 : d ≠ 0)
     (hQ : (2 * iabs (hi * 18446744073709551616 + lo) + iabs d) / (2 * iabs d)
             < 170141183460469231731687303715884105728) :
     ∃ r, roundedSdiv128By49 hi lo d = some r ∧ isI64 r.1 ∧ isI64 r.2 ∧
@@ -188,7 +188,7 @@ theorem sdiv_spec (hi lo d : Int) (hhi : isI64 hi) (hlo : isU64 lo)
   obtain ⟨p1, p2, p3, p4, p5⟩ := sdivPrepare_spec hi lo d hhi hlo hdI
   have hda : 0 < iabs d ∧ iabs d ≤ 281474976710656 := by unfold iabs; split <;> omega
   simp only [roundedSdiv128By49, roundedUdiv128By48, udivAssert]
-  have hlt : iabs d < 281474976710656 := by unfold iabs; split <;> omega
+  have hlt : iabs d ≤ 281474976710656 := by unfold iabs; split <;> omega
   simp only [p4, hlt, decide_true, if_true]
   obtain ⟨u1, u2, u3⟩ := udivCore_spec _ _ (iabs d) p1 p2 hda.1 hda.2
   rw [p3] at u3
@@ -266,37 +266,38 @@ theorem transformPoint_true_isI32 (t : Transform) (v p : Vec) (h : transformPoin
     simp only
     omega
 
-theorem boundsStep_spec (first : Bool) (b : Box16) (p : Vec) (hp : p.isI32) :
-    ContainsExceptCeilOverflow (boundsStep first b p) p ∧ (first = false → b.le (boundsStep first b p)) := by
+theorem boundsStep_spec (first : Bool) (b : Box16) (p : Vec) (hp : p.isI32) (ho : upperEdgeOverflows p = false) :
+    Contains (boundsStep first b p) p ∧ (first = false → b.le (boundsStep first b p)) := by
   unfold Vec.isI32 isI32 at hp
-  unfold ContainsExceptCeilOverflow Box16.le boundsStep fixedToInt fixedCeil
+  unfold upperEdgeOverflows at ho
+  simp only [Bool.or_eq_false_iff, decide_eq_false_iff_not] at ho
+  unfold Contains Box16.le boundsStep
+  have cx : ceilInt p.x * 65536 ≥ p.x ∧ -32768 ≤ ceilInt p.x := by
+    unfold ceilInt fixedToInt fixedFrac; split <;> omega
+  have cy : ceilInt p.y * 65536 ≥ p.y ∧ -32768 ≤ ceilInt p.y := by
+    unfold ceilInt fixedToInt fixedFrac; split <;> omega
+  unfold fixedToInt
   have w1 := wrapS16_of_range (p.x / 65536) (by omega)
   have w2 := wrapS16_of_range (p.y / 65536) (by omega)
-  have w3 := wrapS16_of_range (wrapS32 (p.x + 65535) / 65536 * 65536 / 65536) (by unfold wrapS32; omega)
-  have w4 := wrapS16_of_range (wrapS32 (p.y + 65535) / 65536 * 65536 / 65536) (by unfold wrapS32; omega)
+  have w3 := wrapS16_of_range (ceilInt p.x) (by omega)
+  have w4 := wrapS16_of_range (ceilInt p.y) (by omega)
   simp only [w1, w2, w3, w4]
-  have c1 : p.x ≤ 2147418112 → wrapS32 (p.x + 65535) = p.x + 65535 := by intro h; unfold wrapS32; omega
-  have c2 : p.y ≤ 2147418112 → wrapS32 (p.y + 65535) = p.y + 65535 := by intro h; unfold wrapS32; omega
-  generalize wrapS32 (p.x + 65535) = cx at *
-  generalize wrapS32 (p.y + 65535) = cy at *
+  generalize ceilInt p.x = X2 at *
+  generalize ceilInt p.y = Y2 at *
   cases first
   · simp only [Bool.false_eq_true, if_false]
-    refine ⟨⟨?_, ?_, ?_, ?_⟩, fun _ => ⟨?_, ?_, ?_, ?_⟩⟩ <;> (try intro hh) <;> (try have := c1 hh) <;> (try have := c2 hh) <;>
-      split <;> omega
+    refine ⟨⟨?_, ?_, ?_, ?_⟩, fun _ => ⟨?_, ?_, ?_, ?_⟩⟩ <;> split <;> omega
   · simp only [if_true]
-    refine ⟨⟨?_, ?_, ?_, ?_⟩, fun h => by cases h⟩ <;> (try intro hh) <;> (try have := c1 hh) <;> (try have := c2 hh) <;> omega
+    refine ⟨⟨?_, ?_, ?_, ?_⟩, fun h => by cases h⟩ <;> omega
 
-theorem contains_mono (a b : Box16) (p : Vec) (h : a.le b) (hc : ContainsExceptCeilOverflow a p) :
-    ContainsExceptCeilOverflow b p := by
-  unfold Box16.le at h; unfold ContainsExceptCeilOverflow at *
-  refine ⟨by omega, by omega, fun hh => ?_, fun hh => ?_⟩
-  · have := hc.2.2.1 hh; omega
-  · have := hc.2.2.2 hh; omega
+theorem contains_mono (a b : Box16) (p : Vec) (h : a.le b) (hc : Contains a p) : Contains b p := by
+  unfold Box16.le at h; unfold Contains at *
+  omega
 
 theorem boundsLoop_spec (t : Transform) (cs : List Vec) :
     ∀ (first : Bool) (b b' : Box16), boundsLoop t first b cs = some (true, b') →
       (first = false → b.le b') ∧
-      ∀ c ∈ cs, ∃ p, transformPoint t c = some (true, p) ∧ ContainsExceptCeilOverflow b' p := by
+      ∀ c ∈ cs, ∃ p, transformPoint t c = some (true, p) ∧ Contains b' p := by
   induction cs with
   | nil =>
     intro first b b' h
@@ -311,17 +312,22 @@ theorem boundsLoop_spec (t : Transform) (cs : List Vec) :
     · cases h
     · injection h with h; injection h with h1 _; cases h1
     · rename_i p hp
-      have hI := transformPoint_true_isI32 t c p hp
-      have ⟨s1, s2⟩ := boundsStep_spec first b p hI
-      have ⟨i1, i2⟩ := ih false (boundsStep first b p) b' h
-      have g := i1 rfl
-      refine ⟨fun hf => ?_, ?_⟩
-      · have := s2 hf
-        unfold Box16.le at *; omega
-      · intro c' hc'
-        cases hc' with
-        | head => exact ⟨p, hp, contains_mono _ _ _ g s1⟩
-        | tail _ hm => exact i2 c' hm
+      by_cases ho : upperEdgeOverflows p = true
+      · rw [if_pos ho] at h
+        injection h with h; injection h with h1 _; cases h1
+      · rw [if_neg ho] at h
+        have ho' : upperEdgeOverflows p = false := by simpa using ho
+        have hI := transformPoint_true_isI32 t c p hp
+        have ⟨s1, s2⟩ := boundsStep_spec first b p hI ho'
+        have ⟨i1, i2⟩ := ih false (boundsStep first b p) b' h
+        have g := i1 rfl
+        refine ⟨fun hf => ?_, ?_⟩
+        · have := s2 hf
+          unfold Box16.le at *; omega
+        · intro c' hc'
+          cases hc' with
+          | head => exact ⟨p, hp, contains_mono _ _ _ g s1⟩
+          | tail _ hm => exact i2 c' hm
 
 theorem bitLength_spec (x : Int) (h0 : 0 < x) (h1 : x < 2147483648) :
     ∃ s : Nat, bitLength x = (s : Int) ∧ 1 ≤ s ∧ s ≤ 31 ∧ (2 : Int) ^ (s - 1) ≤ x ∧ x < (2 : Int) ^ s := by
@@ -404,7 +410,7 @@ theorem projDivisor_range (divint divfrac : Int) (hI : isI64 divint) (hf : 0 ≤
       omega
 
 theorem projCoord_none_iff (h l div sb : Int) (hd : isI64 div) :
-    projCoord h l div sb = none ↔ iabs div ≥ 281474976710656 := by
+    projCoord h l div sb = none ↔ iabs div > 281474976710656 := by
   unfold projCoord
   simp only
   rw [← sdiv_abort_iff (fixed6416ToInt128 h l sb).1 (wrapU64 (fixed6416ToInt128 h l sb).2) div hd]
@@ -467,7 +473,7 @@ theorem transformPoint_none_iff (t : Transform) (v : Vec) : transformPoint t v =
     `0 < |div| < 2^48`: does not abort and returns, as a 128-bit two's complement pair, the quotient
     rounded to nearest with ties away from zero. -/
 theorem sdiv_spec_away (hi lo d : Int) (hhi : isI64 hi) (hlo : isU64 lo)
-    (hd : -281474976710656 < d ∧ d < 281474976710656) (hd0 : d ≠ 0)
+    (hd : -281474976710656 ≤ d ∧ d ≤ 281474976710656) (hd0 : d ≠ 0)
     (hQ : roundHalfUp (abs (hi * 18446744073709551616 + lo)) (abs d) < 170141183460469231731687303715884105728) :
     ∃ r, roundedSdiv128By49 hi lo d = some r ∧ isI64 r.1 ∧ isI64 r.2 ∧
       r.2 * 18446744073709551616 + r.1 % 18446744073709551616
@@ -530,7 +536,7 @@ theorem fixed11216_spec (rhi rlo : Int) (h1 : isI64 rlo) (h2 : isI64 rhi) :
 /-- one coordinate of the small-divisor projective branch: exact quotient, rounded to nearest
     (ties away from zero), clamped to the 48.16 type -/
 theorem projCoord_small (h l W : Int) (hr : isI64 (h + l / 65536))
-    (hW : -281474976710656 < W ∧ W < 281474976710656) (hW0 : W ≠ 0) :
+    (hW : -281474976710656 ≤ W ∧ W ≤ 281474976710656) (hW0 : W ≠ 0) :
     projCoord h l W 32 = some (clamp64 (roundHalfAway ((h * 65536 + l) * 65536) W)) := by
   obtain ⟨n1, n2⟩ := to128_scale32 h l hr
   unfold projCoord
@@ -543,7 +549,7 @@ theorem projCoord_small (h l W : Int) (hr : isI64 (h + l / 65536))
     generalize (h * 65536 + l) * 65536 = N at *
     unfold roundHalfUp
     have hM : 0 ≤ abs N ∧ abs N ≤ 79228162514264337593543950336 := by unfold abs; split <;> omega
-    have hD : 0 < abs W ∧ abs W < 281474976710656 := by unfold abs; split <;> omega
+    have hD : 0 < abs W ∧ abs W ≤ 281474976710656 := by unfold abs; split <;> omega
     have := @Int.ediv_le_self (2 * abs N + abs W) (2 * abs W) (by omega)
     omega
   obtain ⟨r, e, r1, r2, rv⟩ := sdiv_spec_away _ (wrapU64 (fixed6416ToInt128 h l 32).2) W n1
@@ -619,7 +625,7 @@ theorem to128_reduced (h l : Int) (s : Nat) (s1 : 1 ≤ s) (s2 : s ≤ 31) (hr :
 theorem projCoord_of_value (h l W sb N : Int) (n1 : isI64 (fixed6416ToInt128 h l sb).1)
     (n2 : (fixed6416ToInt128 h l sb).1 * 18446744073709551616 + wrapU64 (fixed6416ToInt128 h l sb).2 = N)
     (hb : -79228162514264337593543950336 ≤ N ∧ N ≤ 79228162514264337593543950336)
-    (hW : -281474976710656 < W ∧ W < 281474976710656) (hW0 : W ≠ 0) :
+    (hW : -281474976710656 ≤ W ∧ W ≤ 281474976710656) (hW0 : W ≠ 0) :
     projCoord h l W sb = some (clamp64 (roundHalfAway N W)) := by
   unfold projCoord
   simp only
@@ -628,7 +634,7 @@ theorem projCoord_of_value (h l W sb N : Int) (n1 : isI64 (fixed6416ToInt128 h l
     rw [n2]
     unfold roundHalfUp
     have hM : 0 ≤ abs N ∧ abs N ≤ 79228162514264337593543950336 := by unfold abs; split <;> omega
-    have hD : 0 < abs W ∧ abs W < 281474976710656 := by unfold abs; split <;> omega
+    have hD : 0 < abs W ∧ abs W ≤ 281474976710656 := by unfold abs; split <;> omega
     have := @Int.ediv_le_self (2 * abs N + abs W) (2 * abs W) (by omega)
     omega
   obtain ⟨r, e, r1, r2, rv⟩ := sdiv_spec_away _ (wrapU64 (fixed6416ToInt128 h l sb).2) W n1
